@@ -36,6 +36,9 @@ pub fn loader_mappings() -> usize {
     }).count()
 }
 
+/// Number of open file descriptors of this process.
+pub fn open_fds() -> usize { std::fs::read_dir("/proc/self/fd").map(|d| d.count()).unwrap_or(0) }
+
 fn is_mapped(addr: usize) -> bool {
     let maps = std::fs::read_to_string("/proc/self/maps").unwrap_or_default();
     maps.lines().any(|l| {
@@ -99,6 +102,7 @@ pub fn c08(t: &dyn TypeOps, cx: &mut Cx) {
                     cx.evals += 1;
                     cx.transitions += 1 + h.len() as u64;
                     let base_maps = loader_mappings();
+                    let base_fds = open_fds();
                     let r = t.load_history(loader, &path, flags, h);
                     cx.outcome(&format!("{}-{}", LOADERS[loader as usize], r.class()));
                     let obs = match r {
@@ -127,6 +131,7 @@ pub fn c08(t: &dyn TypeOps, cx: &mut Cx) {
                     }
                     // after the case has been dropped the loader-created mappings are gone
                     if loader_mappings() != base_maps { bad.push("mapping-count-not-restored-after-drop".into()); }
+                    if open_fds() != base_fds { bad.push("file-descriptor-not-closed-after-drop".into()); }
                     bad.sort(); bad.dedup();
                     for b in bad { cx.violate(&format!("{}-{}", LOADERS[loader as usize], b.split('@').next().unwrap()), json!({"value": vdesc(i, &want), "flags": flags, "history": format!("{:?}", h), "detail": b, "file_len": flen})); }
                 }
@@ -198,6 +203,7 @@ pub fn c09(t: &dyn TypeOps, cx: &mut Cx) {
                 // one report per (loader, cause class) is enough; do not keep leaking
                 if leaked.contains(&(loader, cause.split('@').next().unwrap().to_string())) { continue; }
                 let base_maps = loader_mappings();
+                let base_fds = open_fds();
                 let mut heap = vec![];
                 let mut outcome = String::new();
                 for _rep in 0..3 {
@@ -212,6 +218,7 @@ pub fn c09(t: &dyn TypeOps, cx: &mut Cx) {
                 cx.outcome(&format!("{}-{}", klass, outcome.split(':').next().unwrap()));
                 let after_maps = loader_mappings();
                 if after_maps != base_maps || heap[2] != heap[1] { leaked.insert((loader, klass.to_string())); }
+                if open_fds() != base_fds { cx.violate(&format!("{}-leaks-file-descriptor-on-failure:{}", LOADERS[loader as usize], klass), json!({"value": vdesc(i, &want), "cause": cause, "fds_before": base_fds, "fds_after": open_fds()})); leaked.insert((loader, klass.to_string())); }
                 if after_maps != base_maps {
                     cx.violate(&format!("{}-leaks-mapping-on-failure:{}", LOADERS[loader as usize], klass), json!({"value": vdesc(i, &want), "cause": cause, "mappings_before": base_maps, "mappings_after_3_loads": after_maps, "outcome": outcome}));
                 }
